@@ -21,8 +21,13 @@ THEOREMS = ['C20_sem_extensional_body', 'C20_sem_extensional_code', 'C20_sem_ext
             'C20_exception_passthrough_variadic', 'C20_engine_with_exceptions_refines', 'C20_exception_provenance',
             'C20_exception_unchanged', 'C20_plain_is_machine', 'C20_rows_related', 'C20_native_equals_compiled_facts_rel',
             'C20_native_equals_compiled_facts_renaming', 'C20_ground_rows_special_case', 'C20_native_equals_compiled_facts_same_answer_refuted',
-            'C20_subset_interchangeable_rel', 'C20_subset_interchangeable_renaming']
-IMPORTS = ['Lang.Ast', 'Sem.Machine', 'Sem.RunSem', 'Sem.Native', 'Sem.RunNative']
+            'C20_subset_interchangeable_rel', 'C20_subset_interchangeable_renaming',
+            'C20_chain_engine_refines', 'C20_chain_is_concatenation', 'C20_chain_of_two', 'C20_chain_members_interchangeable',
+            'C20_chain_member_python_vs_compiled', 'C20_mixed_sources_interchangeable', 'C20_mixed_sources_interchangeable_source', 'C20_python_then_script_is_one_definition',
+            'C20_chained_python_predicate_is_first_clauses', 'C20_chain_engine_monotone', 'C20_exception_passthrough_chain_member',
+            'C20_exception_at_the_chain', 'C20_chain_engine_with_exceptions_refines', 'C20_chain_engine_with_exceptions_built',
+            'C20_chain_exception_provenance', 'C20_chain_exception_unchanged']
+IMPORTS = ['Lang.Ast', 'Sem.Machine', 'Sem.RunSem', 'Sem.Native', 'Sem.RunNative', 'Sem.NativeChain', 'Sem.NativeChainExc', 'Sem.RunNativeChain']
 CASE_TIMEOUT = 30
 COQ_CHUNK = 12
 DEPTH = 30
@@ -37,7 +42,14 @@ RULE = ('random programs with conjunction, disjunction, if-then-else, \\+, cut, 
         'Compared: canonical answers, their number and how the enumeration ended between engine with Python predicates, engine with '
         'everything compiled, and the Coq model of both; values yielded at the top level; for a function that raises instead of its '
         'j-th answer: answers delivered before, exception class and object identity, no binding left.  Non-trivial: a replaced '
-        'predicate with >= 2 rows is called under cut, \\+, if-then-else or a meta-call and some query has an answer.')
+        'predicate with >= 2 rows is called under cut, \\+, if-then-else or a meta-call and some query has an answer.  '
+        'Family "one predicate from mixed sources": the key m/0..3 is defined by a sequence of register_function (three styles, rows ground or '
+        'with variables, yielding False / True / None / 0 / 1 / alternating, 0-2 of them raising), load_script_from_string of clauses of m '
+        '(facts, sometimes cutting) with overwrite False / True, and assert_fact, in every order (fixed corpus: all orders of length 2 and 3; '
+        'random: 3-7 operations), next to a script of rules that call m under conjunction, cut, if-then-else, \\+, once/1, findall/3, call/N; '
+        'queries also after a prefix of the sequence.  Compared: the engine, its all-compiled twin built by the same sequence (each '
+        'fixed-arity register_function with >= 1 row replaced by load_script(its facts, overwrite=True)) and the Coq engine with chains of '
+        'definitions per key (Sem/NativeChainExc.v cqueryE) for both; non-trivial there: >= 3 operations and some query has an answer.')
 TRUSTED_BASE = ['inspect.signature arity inference is exercised, not modelled: the model takes the resulting key']
 ASSUMPTIONS = ['the Python predicate unifies its arguments with each row and yields once per solution (well-behaved)']
 
@@ -63,6 +75,12 @@ def make_exc(name, i):
     return {'KeyError': KeyError, 'AttributeError': AttributeError, 'TypeError': TypeError, 'ValueError': ValueError, 'LookupError': LookupError,
             'StopIteration': StopIteration, 'RuntimeError': RuntimeError, 'GeneratorExit': GeneratorExit, 'AssertionError': AssertionError,
             'OSError': OSError}[name](msg)
+
+YIELDS = ['false', 'true', 'mixed', 'none', 'zero', 'one', 'mixed01']
+
+def yield_value(mode, i):
+    """what the Python predicate yields for its row number i"""
+    return {'false': False, 'true': True, 'mixed': i % 2 == 1, 'none': None, 'zero': 0, 'one': 1, 'mixed01': (i + 1) % 2}[mode]
 
 def expected_end(spec):
     """what the consumer must see: the object itself; a StopIteration that leaves a generator function is turned by CPython
@@ -125,7 +143,7 @@ def make_native(yp, E, spec, rows, exc_obj, log):
         for _ in E.unify(args[i], vals[i]):
             yield from nested(args, vals, i + 1)
     def value(i):
-        return {'false': False, 'true': True, 'mixed': i % 2 == 1}[spec['yield']]
+        return yield_value(spec['yield'], i)
     def body(args):
         log.append([spec['name'], len(args), [type(a).__name__ for a in args]])
         count = 0
@@ -168,7 +186,7 @@ def run_queries(yp, E, case, exc_obj):
         args, nq = semcheck.query_terms(q)
         T = terms.ImplTerms([yp], nq)
         objs = [T.build(a) for a in args]
-        answers, values = [], []
+        answers, values, truth = [], [], []
         end = 'done'
         same = None
         n = 0
@@ -183,6 +201,7 @@ def run_queries(yp, E, case, exc_obj):
                 if n <= LIMIT:
                     answers.append([terms.term_obs(T.read(T.vars[i])) for i in range(nq)])
                     values.append(repr(x))
+                    truth.append(repr(bool(x)))
                 if n >= CAP:
                     end = 'cap'
                     break
@@ -206,11 +225,13 @@ def run_queries(yp, E, case, exc_obj):
             x.__traceback__ = None
         leftover = [i for i in range(nq) if T.vars[i]._is_bound]
         leaked = sum(1 for v in list(W) if v._is_bound and id(v) not in before) if W is not None else 0
-        out.append({'answers': semcheck.canon_answers(answers), 'values': values, 'count': n, 'end': end, 'same': same,
+        out.append({'answers': semcheck.canon_answers(answers), 'values': values, 'truth': truth, 'count': n, 'end': end, 'same': same,
                     'leftover': leftover, 'leaked': leaked, 'findall_inner': bool(getattr(yp, '_verif_findall_inner', False))})
     return out
 
 def impl(case):
+    if case.get('kind') == 'mixed':
+        return impl_mixed(case)
     from yldprolog import compiler, engine as E
     res = {}
     exc_obj = [make_exc(sp.get('exc') or 'Boom', i) for i, sp in enumerate(case['native'])]
@@ -263,6 +284,8 @@ def g_frow(ts, nv):
     return '{| r_vals := %s; r_nv := %s |}' % (g_list([g_term(t) for t in ts]), g_nat(nv))
 
 def model_expr(case):
+    if case.get('kind') == 'mixed':
+        return model_expr_mixed(case)
     if case.get('pre') is None:
         return '(OL [%s])' % model_expr_phase(case, case['native'])
     return '(OL [%s; %s])' % (model_expr_phase(case, [case['native'][i] for i in case['pre']], bool(case.get('decoy'))), model_expr_phase(case, case['native']))
@@ -274,12 +297,15 @@ def g_natives(case, natives, decoy=False):
         rows = [row_terms(r) for r in facts.get((spec['name'], spec['arity']), [])]
         if decoy:
             rows = rows[:1]
-        vals = [{'false': False, 'true': True, 'mixed': i % 2 == 1}[spec['yield']] for i in range(len(rows))]
-        style = 'NVariadic' if spec['style'] == 'variadic' else '(NFixed %s)' % g_nat(spec['arity'])
-        nats.append('{| n_name := %s; n_style := %s; n_rows := %s; n_vals := %s; n_raise := %s |}' % (
-            g_str(spec['name']), style, g_list([g_frow(ts, nv) for ts, nv in rows]), g_list([g_bool(v) for v in vals]),
-            'None' if spec.get('raise') is None else '(Some %s)' % g_nat(spec['raise'])))
+        nats.append(g_nspec(spec, rows))
     return g_list(nats)
+
+def g_nspec(spec, rows):
+    vals = [bool(yield_value(spec['yield'], i)) for i in range(len(rows))]
+    style = 'NVariadic' if spec['style'] == 'variadic' else '(NFixed %s)' % g_nat(spec['arity'])
+    return '{| n_name := %s; n_style := %s; n_rows := %s; n_vals := %s; n_raise := %s |}' % (
+        g_str(spec['name']), style, g_list([g_frow(ts, nv) for ts, nv in rows]), g_list([g_bool(v) for v in vals]),
+        'None' if spec.get('raise') is None else '(Some %s)' % g_nat(spec['raise']))
 
 def g_dyn(dynl):
     dyn = {}
@@ -310,6 +336,13 @@ def anon(x):
         return [anon(y) for y in x]
     return x
 
+def findall_sharing(uf, m_py, m_compiled):
+    """the model's engine with Python predicates and its all-compiled engine differ ONLY in the identity of variables, in a program
+    that uses findall/3: findall does not copy the instances it collects, so a variable the goal leaves unbound is shared between them
+    with compiled clauses and distinct with a Python predicate (see same_modulo_findall; the implementation flags it through
+    semcheck.watch_findall only when the enumeration gets that far - not when a predicate raises first)"""
+    return bool(uf) and m_py['answers'] != m_compiled['answers'] and anon(m_py['answers']) == anon(m_compiled['answers'])
+
 def uses_findall(case):
     cs = set()
     for _, _, b in case['clauses']:
@@ -322,6 +355,8 @@ def qtext(q):
 def compare(case, io, mo):
     if 'rejected' in io:
         return 'the compiler rejected a generated program: %s %s' % (io['rejected'], io.get('msg'))
+    if case.get('kind') == 'mixed':
+        return compare_mixed(case, io, mo)
     if any(m and m[0] == 'stuck' for m in mo):
         return 'model compiler stuck'
     if case.get('pre') is not None:
@@ -339,12 +374,13 @@ def compare_phase(case, ioA, ioB, mo, natives, tagmap=None):
     # identity of variables that findall/3 collects from DIFFERENT answers is outside the model's cell naming (semcheck.watch_findall
     # notices it on the implementation): such a query is compared with the model without variable identity; engine A against B stays exact
     final = ioB is not None
+    uf = uses_findall(case)
     for q, a0, b0, m in zip(case['queries'], ioA, ioB if final else ioA, mo):
         mn, mc, mnr = view(m[0]), view(m[1]), view(m[3])
         if tagmap is not None and mn['exn'][0] == 'py':
             mn['exn'] = ['py', tagmap[mn['exn'][1]]]      # position in the registered subset -> position in the case
         a, b = a0, b0
-        fa = a0.get('findall_inner') or b0.get('findall_inner')
+        fa = a0.get('findall_inner') or b0.get('findall_inner') or findall_sharing(uf, mnr, mc)
         if fa:
             mn, mc, mnr = [dict(v, answers=anon(v['answers'])) for v in (mn, mc, mnr)]
             a, b = dict(a0, answers=anon(a0['answers'])), dict(b0, answers=anon(b0['answers']))
@@ -392,7 +428,7 @@ def compare_phase(case, ioA, ioB, mo, natives, tagmap=None):
             return 'query %s: engine with Python predicates %s after %d answers; the model finishes normally with %d' % (t, a['end'], a['count'], mn['count'])
         if a['answers'] != mn['answers'] or (a['end'] == 'done' and a['count'] != mn['count']):
             return 'query %s: engine with Python predicates differs from the model (%d vs %d answers)' % (t, a['count'], mn['count'])
-        if not raising and (a0['answers'] != b0['answers'] or a0['count'] != b0['count']):
+        if not raising and (a['answers'] != b['answers'] or a['count'] != b['count']):
             return 'query %s: Python predicates and compiled predicates give different answers (%d vs %d)' % (t, a['count'], b['count'])
         if m[2]:
             mv = [repr(bool(x)) for x in m[2][0]]
@@ -400,9 +436,20 @@ def compare_phase(case, ioA, ioB, mo, natives, tagmap=None):
                 return 'query %s: values yielded at the top level %s, model %s' % (t, a['values'], mv)
     return None
 
+def same_modulo_findall(a, b):
+    """True when the two engines' answers DIFFER.  findall/3 does not copy the instances it collects (get_value only): a variable
+    that the goal leaves unbound is the caller's own variable in every collected instance (shared) when compiled clauses leave it
+    alone, but a Python predicate's unify binds it to the fresh variable of its row (distinct per instance).  When findall collected
+    variables created while its goal ran (semcheck.watch_findall), the identity of variables is therefore not compared."""
+    if a.get('findall_inner') or b.get('findall_inner'):
+        return anon(a['answers']) != anon(b['answers']) or a['count'] != b['count']
+    return a['answers'] != b['answers'] or a['count'] != b['count']
+
 def oracle(case, io):
     if not isinstance(io, dict) or 'A' not in io:
         return None
+    if case.get('kind') == 'mixed':
+        return oracle_mixed(case, io)
     raising = any(s.get('raise') is not None for s in case['native'])
     for q, a, b in zip(case['queries'], io['A'], io['B']):
         t = qtext(q)
@@ -417,7 +464,7 @@ def oracle(case, io):
             if a['same'] is None or a['end'] != expected_end(case['native'][a['same']]):
                 return 'query %s: the exception of the Python predicate did not reach the consumer unchanged (%s, same object: %s)' % (t, a['end'], a['same'])
         if not raising and a['end'] in ('done', 'cap') and b['end'] in ('done', 'cap'):
-            if a['answers'] != b['answers'] or a['count'] != b['count']:
+            if same_modulo_findall(a, b):
                 return 'query %s: Python predicates and compiled predicates give different answers (%d vs %d)' % (t, a['count'], b['count'])
     for q, a in zip(case['queries'], io.get('A0') or []):
         if a['leftover'] or a['leaked']:
@@ -538,8 +585,288 @@ def native_spec(rng, name, ar, raise_=None):
     return {'name': name, 'arity': ar, 'style': rng.choice(['inferred', 'explicit', 'variadic']),
             'yield': rng.choice(['false', 'true', 'mixed']), 'form': rng.choice(['arrays', 'nested']), 'raise': raise_}
 
+# ------------------------------------------------------------------ one predicate defined from MIXED SOURCES
+#
+# case['kind'] == 'mixed': the engine is built by a sequence case['ops'] of
+#     ['load', clauses, overwrite]   compile the clauses as a script of their own, load_script_from_string(text, overwrite=..)
+#     ['reg', i]                     register_function(Python predicate case['native'][i]); its rows are spec['rows'] (source terms)
+#     ['assert', name, row]          assert_fact(name, row)
+# Queries are asked after the prefixes case['rounds'] of the sequence (the last one is the whole sequence).  The all-compiled
+# twin is built by the same sequence with every ['reg', i] of a fixed-arity predicate with >= 1 row replaced by
+# ['load', its rows as facts, True] (register_function is an assignment to the key, just as overwrite=True).
+
+def spec_fact_clauses(spec):
+    return [[spec['name'], row, ['true']] for row in spec['rows']]
+
+def spec_rows(spec):
+    return [row_terms(c[1]) for c in progs.number_anons(spec_fact_clauses(spec))]
+
+def has_twin(spec):
+    return spec['style'] != 'variadic' and len(spec['rows']) >= 1
+
+def twin_ops(case):
+    out = []
+    for op in case['ops']:
+        if op[0] == 'reg' and has_twin(case['native'][op[1]]):
+            out.append(['load', spec_fact_clauses(case['native'][op[1]]), True])
+        else:
+            out.append(op)
+    return out
+
+def mixed_clauses(case):
+    return [c for op in case['ops'] if op[0] == 'load' for c in op[1]]
+
+def impl_mixed(case):
+    from yldprolog import compiler, engine as E
+    res = {'Ar': [], 'Br': []}
+    exc_obj = [make_exc(sp.get('exc') or 'Boom', i) for i, sp in enumerate(case['native'])]
+    for which in ('B', 'A'):
+        ops = case['ops'] if which == 'A' else twin_ops(case)
+        yp = E.YP()
+        semcheck.watch_findall(yp)
+        log = []
+        for n, op in enumerate(ops):
+            if op[0] == 'load':
+                if op[1]:
+                    src = ast_io.program_text(op[1])
+                    try:
+                        text = compiler.compile_prolog_from_string(src, semcheck.Ctx)
+                    except Exception as e:
+                        return {'rejected': type(e).__name__, 'msg': str(e)[:200], 'source': src}
+                    yp.load_script_from_string(text, overwrite=bool(op[2]))
+            elif op[0] == 'reg':
+                spec = case['native'][op[1]]
+                if which == 'B':
+                    spec = dict(spec, **{'raise': None})     # a Python predicate that stays in the twin (variadic, no rows) does not raise there
+                f, ar = make_native(yp, E, spec, spec_rows(spec), exc_obj[op[1]], log)
+                if ar is None:
+                    yp.register_function(spec['name'], f)
+                else:
+                    yp.register_function(spec['name'], f, arity=ar)
+            else:
+                ts = row_terms(progs.number_anons([[op[1], op[2], ['true']]])[0][1])[0]
+                yp.assert_fact(yp.atom(op[1]), build_fact(yp, ts))
+            if n + 1 in case['rounds']:
+                res[which + 'r'].append(run_queries(yp, E, case, exc_obj))
+        res[which] = res[which + 'r'][-1]
+        if which == 'A':
+            res['calls'] = len(log)
+            res['argtypes'] = sorted({t for _, _, ts in log for t in ts})
+            res['keys'] = sorted(k for k in yp.eval_context if any(k.startswith(s['name'] + '_') for s in case['native']))
+    return res
+
+def g_mop(case, op):
+    if op[0] == 'load':
+        return '(MLoad %s %s)' % (ast_io.g_program(progs.number_anons(op[1])), g_bool(bool(op[2])))
+    if op[0] == 'reg':
+        spec = case['native'][op[1]]
+        return '(MReg %d %s)' % (op[1], g_nspec(spec, spec_rows(spec)))      # raises the object XPy <index of the predicate>
+    ts, nv = row_terms(progs.number_anons([[op[1], op[2], ['true']]])[0][1])
+    return '(MAssert %s %s)' % (g_str(op[1]), g_frow(ts, nv))
+
+def model_expr_mixed(case):
+    qs = []
+    for q in case['queries']:
+        args, nq = semcheck.query_terms(q)
+        qs.append('(%s, %s, %s)' % (g_str(q[0]), g_list([g_term(a) for a in args]), g_nat(nq)))
+    py = [g_mop(case, op) for op in case['ops']]
+    tw = [g_mop(case, op) for op in twin_ops(case)]
+    return '(OL [%s])' % '; '.join('(run_mixed %d %s %s %s %d)' % (DEPTH, g_list(py[:k]), g_list(tw[:k]), g_list(qs), LIMIT) for k in case['rounds'])
+
+def compare_mixed(case, io, mo):
+    if any(m and m[0] == 'stuck' for m in mo):
+        return 'model compiler stuck'
+    raisers = [i for i, s in enumerate(case['native']) if s.get('raise') is not None]
+    uf = uses_findall(dict(case, clauses=mixed_clauses(case)))
+    for rnd, k in enumerate(case['rounds']):
+        where = 'after %d of %d operations, ' % (k, len(case['ops']))
+        for pair in mo[rnd][-1]:
+            if pair[0] != pair[1]:
+                return where + 'the rows of a Python predicate %s are not row_of_src of the facts its twin loads %s' % (pair[0], pair[1])
+        for q, a0, b0, m in zip(case['queries'], io['Ar'][rnd], io['Br'][rnd], mo[rnd]):
+            mn, mt, mnr = view(m[0]), view(m[1]), view(m[3])
+            a, b = a0, b0
+            if a0.get('findall_inner') or b0.get('findall_inner') or findall_sharing(uf, mnr, mt):
+                mn, mt, mnr = [dict(v, answers=anon(v['answers'])) for v in (mn, mt, mnr)]
+                a, b = dict(a0, answers=anon(a0['answers'])), dict(b0, answers=anon(b0['answers']))
+            t = where + 'query ' + qtext(q)
+            if mt['err'] or mnr['err']:
+                for x, y, what in ((a, mn, 'engine with Python predicates'), (b, mt, 'all-compiled twin')):
+                    n = min(len(x['answers']), len(y['answers']))
+                    if x['answers'][:n] != y['answers'][:n]:
+                        return '%s: %s differs from the model before the model\'s depth limit' % (t, what)
+                continue
+            if mnr['answers'] != mt['answers'] or mnr['count'] != mt['count']:
+                return '%s: MODEL: engine with Python predicates and all-compiled twin differ (%d vs %d answers)' % (t, mnr['count'], mt['count'])
+            if b['end'] not in ('done', 'cap'):
+                return '%s: all-compiled twin %s after %d answers' % (t, b['end'], b['count'])
+            if b['answers'] != mt['answers'] or (b['end'] == 'done' and b['count'] != mt['count']):
+                return '%s: all-compiled twin differs from the model (%d vs %d answers)' % (t, b['count'], mt['count'])
+            if mn['err']:
+                # the world without raising predicates ends normally: the model ends with the object XPy i of Python predicate i
+                if mn['exn'][0] != 'py' or mn['exn'][1] not in raisers:
+                    return '%s: MODEL ends with %s although the world without raising predicates ends normally' % (t, mn['exn'])
+                if not a['end'].startswith('raised'):
+                    return '%s: the model ends with the exception of Python predicate %d after %d answers, the engine %s after %d' % (t, mn['exn'][1], mn['count'], a['end'], a['count'])
+                if a['answers'] != mn['answers'] or a['count'] != mn['count']:
+                    return '%s: answers delivered before the exception differ from the model (%d vs %d)' % (t, a['count'], mn['count'])
+                if a['same'] != mn['exn'][1] or a['end'] != expected_end(case['native'][mn['exn'][1]]):
+                    return '%s: the consumer got %s (object of predicate %s), the model the object raised by predicate %d' % (t, a['end'], a['same'], mn['exn'][1])
+                continue
+            if a['end'] not in ('done', 'cap'):
+                return '%s: engine with Python predicates %s after %d answers; the model finishes normally with %d' % (t, a['end'], a['count'], mn['count'])
+            if a['answers'] != mn['answers'] or (a['end'] == 'done' and a['count'] != mn['count']):
+                return '%s: engine with Python predicates differs from the model (%d vs %d answers)' % (t, a['count'], mn['count'])
+            if a['answers'] != b['answers'] or a['count'] != b['count']:
+                return '%s: Python predicates and compiled predicates give different answers (%d vs %d)' % (t, a['count'], b['count'])
+            if m[2] and a['count'] <= LIMIT:
+                mv = [repr(bool(x)) for x in m[2][0]]
+                if a['truth'] != mv:
+                    return '%s: truth values yielded at the top level %s, model %s' % (t, a['values'], mv)
+    return None
+
+def oracle_mixed(case, io):
+    raising = any(s.get('raise') is not None for s in case['native'])
+    for rnd, k in enumerate(case['rounds']):
+        for q, a, b in zip(case['queries'], io['Ar'][rnd], io['Br'][rnd]):
+            t = 'after %d of %d operations, query %s' % (k, len(case['ops']), qtext(q))
+            for x, what in ((a, 'Python-predicate engine'), (b, 'all-compiled twin')):
+                if x['leftover'] or x['leaked']:
+                    return '%s (%s): variables still bound after the enumeration ended (%s)' % (t, what, x['end'])
+            if b['end'].startswith('raised') and b['end'] != 'raised RecursionError':
+                return '%s: the all-compiled twin %s' % (t, b['end'])
+            if a['end'].startswith('raised') and a['end'] != 'raised RecursionError':
+                if not raising:
+                    return '%s: the engine with Python predicates %s' % (t, a['end'])
+                if a['same'] is None or a['end'] != expected_end(case['native'][a['same']]):
+                    return '%s: the exception of the Python predicate did not reach the consumer unchanged (%s, same object: %s)' % (t, a['end'], a['same'])
+            if not raising and a['end'] in ('done', 'cap') and b['end'] in ('done', 'cap'):
+                if same_modulo_findall(a, b):
+                    return '%s: Python predicates and compiled predicates give different answers (%d vs %d)' % (t, a['count'], b['count'])
+    bad = [x for x in io.get('argtypes', []) if x not in ('Atom', 'Variable', 'Functor', 'int', 'str')]
+    if bad:
+        return 'a Python predicate received arguments that are not engine terms: %s' % bad
+    return None
+
+def mixed_rows(rng, ar, lo, hi):
+    rows = []
+    for _ in range(rng.randrange(lo, hi + 1)):
+        vars_ = ['X', 'Y'][:rng.randrange(0, 3)] if rng.random() < 0.35 else []
+        rows.append([rand_row_term(rng, vars_) if rng.random() < 0.5 else A(rng.choice(ROW_ATOMS + ['d', 'e'])) for _ in range(ar)])
+    return rows
+
+def context_rules(name, ar):
+    """the predicate under conjunction, cut, if-then-else, \\+, findall/3, once/1, call/N"""
+    call = lambda f, *a: ['call', f, list(a)]
+    xs = [V('X%d' % i) for i in range(ar)]
+    goal = ['call', name, xs]
+    gterm = ['fun', name, xs] if ar else A(name)
+    return [['c1', xs, goal],
+            ['c2', xs, ['and', goal, ['cut']]],
+            ['c3', xs + [V('R')], ['or', ['if', goal, call('=', V('R'), A('then'))], call('=', V('R'), A('else'))]],
+            ['c4', [V('R')], ['and', ['not', ['call', name, [V('_') for _ in range(ar)]]], call('=', V('R'), A('none'))]],
+            ['c5', [V('L')], call('findall', ['fun', 't', xs] if ar else A('t'), gterm, V('L'))],
+            ['c6', xs, call('once', gterm)],
+            ['c7', xs, ['call', 'call', ([['fun', name, xs[:-1]]] if ar > 1 else [A(name)]) + xs[-1:]] if ar else call('call', A(name))],
+            ['c8', xs, ['and', goal, goal]]]
+
+def context_queries(ar):
+    xs = [V('Q%d' % i) for i in range(ar)]
+    return [['c1', xs], ['c2', xs], ['c3', xs + [V('Q9')]], ['c4', [V('Q0')]], ['c5', [V('Q0')]], ['c6', xs], ['c7', xs], ['c8', xs]]
+
+def gen_mixed(rng):
+    ar = rng.choice([0, 1, 1, 1, 2, 2, 3])
+    name = 'm'
+    # the rules: a random program whose rules call m/ar in random contexts, and some of the fixed context rules
+    o = progs.Opts(control=rng.random() < 0.75, cut=rng.random() < 0.5, opaque_cut=rng.random() < 0.3, builtins=rng.random() < 0.6, max_preds=3)
+    p = progs.gen_program(rng, o)
+    rules = [list(c) for c in p['clauses']]
+    rule_idx = [i for i, c in enumerate(rules) if c[0].startswith('p')]
+    for i in rng.sample(rule_idx, min(len(rule_idx), rng.randrange(1, 3))):
+        c = rules[i]
+        rules[i] = [c[0], c[1], inject(rng, c[2], name, ar, clause_vars(c))]
+    ctx = context_rules(name, ar)
+    pick = sorted(rng.sample(range(len(ctx)), rng.randrange(2, 5)))
+    rules += [ctx[i] for i in pick]
+    queries = list(p['queries'])[:4] + [context_queries(ar)[i] for i in pick]
+    if rng.random() < 0.25:
+        rules += [[name, row, ['true']] for row in mixed_rows(rng, ar, 1, 1)]      # the rules' script defines the key too
+    native, ops = [], []
+    raiser = rng.choice([0, 0, 0, 0, 0, 1, 1, 2])      # how many of the Python predicates raise
+    for _ in range(rng.randrange(2, 6)):
+        r = rng.random()
+        if r < 0.4:
+            spec = {'name': name, 'arity': ar, 'style': rng.choice(['inferred', 'explicit', 'inferred', 'explicit', 'variadic']),
+                    'yield': rng.choice(YIELDS), 'form': rng.choice(['arrays', 'nested']), 'raise': None,
+                    'rows': mixed_rows(rng, ar, 0 if rng.random() < 0.1 else 1, 3 if ar else 2)}
+            if raiser and spec['rows']:
+                raiser -= 1
+                spec['raise'] = rng.choice([0, 1, 1, 2])
+                spec['exc'] = rng.choice(EXC_CLASSES)
+            native.append(spec)
+            ops.append(['reg', len(native) - 1])
+        elif r < 0.75:
+            cl = []
+            for row in mixed_rows(rng, ar, 1, 3 if ar else 2):
+                cl.append([name, row, ['cut'] if rng.random() < 0.1 else ['true']])
+            ops.append(['load', cl, rng.random() < 0.3])
+        else:
+            for row in mixed_rows(rng, ar, 1, 2):
+                ops.append(['assert', name, row])
+    if not native:
+        spec = {'name': name, 'arity': ar, 'style': rng.choice(['inferred', 'explicit']), 'yield': rng.choice(YIELDS),
+                'form': rng.choice(['arrays', 'nested']), 'raise': None, 'rows': mixed_rows(rng, ar, 1, 3 if ar else 2)}
+        native.append(spec)
+        ops.insert(rng.randrange(0, len(ops) + 1), ['reg', 0])
+    ops.insert(rng.randrange(0, len(ops) + 1) if rng.random() < 0.5 else 0, ['load', rules, rng.random() < 0.5])
+    for _ in range(rng.randrange(1, 4)):
+        args = []
+        for j in range(ar):
+            q = rng.random()
+            args.append(V('Q%d' % rng.randrange(0, max(1, ar))) if q < 0.65 else rand_row_term(rng, ['Q0', 'Q1'], 1))
+        queries.append([name, [a if a != V('_') else V('Q0') for a in args]])
+    rounds = [len(ops)]
+    if len(ops) > 1 and rng.random() < 0.35:
+        rounds = [rng.randrange(1, len(ops)), len(ops)]
+    return {'kind': 'mixed', 'ops': ops, 'native': native, 'queries': queries, 'rounds': rounds, 'clauses': [], 'dyn': []}
+
+def mixed_corpus():
+    """every order of {register_function, load overwrite=False, load overwrite=True, assert_fact} of length 2 and 3 for one key,
+    the rules (all contexts) loaded first; the Python predicate's yield / style / form cycle through all values"""
+    import itertools
+    L = []
+    n = 0
+    for ar in (1, 2):
+        rules = context_rules('m', ar)
+        queries = context_queries(ar) + [['m', [V('Q%d' % i) for i in range(ar)]], ['m', [A('a')] * ar], ['m', [V('Q0')] * ar]]
+        pad = lambda x: [A(x)] * ar
+        for length in (2, 3):
+            for seq in itertools.product('RFTD', repeat=length):
+                if ar == 2 and (n % 3 or 'R' not in seq):
+                    n += 1
+                    continue
+                native, ops = [], [['load', rules, True]]
+                for j, k in enumerate(seq):
+                    if k == 'R':
+                        native.append({'name': 'm', 'arity': ar, 'style': ['inferred', 'explicit'][(n + j) % 2], 'yield': YIELDS[(n + j) % len(YIELDS)],
+                                       'form': ['arrays', 'nested'][(n // 2 + j) % 2], 'raise': None,
+                                       'rows': [pad('a'), pad('r%d' % j)] + ([[V('X')] * ar] if (n + j) % 5 == 0 else [])})
+                        ops.append(['reg', len(native) - 1])
+                    elif k in 'FT':
+                        ops.append(['load', [['m', pad('b'), ['true']], ['m', pad('s%d' % j), ['true']]], k == 'T'])
+                    else:
+                        ops.append(['assert', 'm', pad('d%d' % j)])
+                n += 1
+                if not native:
+                    continue
+                L.append({'kind': 'mixed', 'ops': ops, 'native': native, 'queries': queries, 'rounds': [len(ops)], 'clauses': [], 'dyn': []})
+    return L
+
+
 def gen(rng, tier):
-    n = 90 if tier == 'quick' else 1500
+    import random
+    n = 78 if tier == 'quick' else 1400
+    rng_mixed = random.Random(rng.getrandbits(64))      # the two families draw from streams of their own (both determined by the seed)
     cases = []
     for _ in range(n):
         clauses, queries, dyn = gen_base(rng)
@@ -570,6 +897,9 @@ def gen(rng, tier):
                 specs[(i + 1) % len(specs)]['raise'] = rng.choice([0, 1, 2])
                 specs[(i + 1) % len(specs)]['exc'] = rng.choice(EXC_CLASSES)
             cases.append({'clauses': clauses, 'queries': queries, 'dyn': dt, 'native': specs})
+    # one predicate defined from mixed sources (register_function / load_script overwrite or not / assert_fact in every order)
+    for _ in range(60 if tier == 'quick' else 1000):
+        cases.append(gen_mixed(rng_mixed))
     return cases
 
 def builtin_corpus():
@@ -626,13 +956,16 @@ def builtin_corpus():
                 L.append({'clauses': prog2, 'queries': queries2, 'dyn': dyn0 if k % 5 == 0 else [],
                           'native': [{'name': name, 'arity': ar, 'style': ['inferred', 'explicit', 'variadic'][k % 3], 'yield': ['false', 'true', 'mixed'][k % 3],
                                       'form': ['arrays', 'nested'][k % 2], 'raise': j, 'exc': cls}]})
-    return L
+    return L + mixed_corpus()
 
 def nontrivial(case, io):
     if not isinstance(io, dict) or 'A' not in io or not io.get('calls'):
         return False
     if not any(q['count'] >= 1 for q in io['A']):
         return False
+    if case.get('kind') == 'mixed':
+        # the key has a Python predicate and another source (script, dynamic facts or a second registration)
+        return len(case['ops']) >= 3
     fp = fact_preds(case['clauses'])
     big = [s for s in case['native'] if len(fp.get((s['name'], s['arity']), [])) >= 2]
     cs = set()
@@ -642,8 +975,24 @@ def nontrivial(case, io):
 
 def distribution(cases, obs):
     d = {'style': {}, 'yield': {}, 'form': {}, 'natives_per_case': {}, 'queried_before_registration': sum(1 for c in cases if c.get('pre') is not None), 're_registered': sum(1 for c in cases if c.get('decoy') and c.get('pre')), 'raising': 0, 'with_dynamic_facts': 0, 'ends_A': {},
-         'python_predicate_calls': 0, 'constructs': {}, 'replaced_rows': {}}
+         'python_predicate_calls': 0, 'constructs': {}, 'replaced_rows': {}, 'mixed_sources': {'cases': 0, 'sequences': {}, 'chained_keys': 0}}
     for c, o in zip(cases, obs):
+        if c.get('kind') == 'mixed':
+            ms = d['mixed_sources']
+            ms['cases'] += 1
+            sig = ' '.join({'reg': 'R', 'assert': 'D'}.get(op[0]) or ('T' if op[2] else 'F') for op in c['ops'] if op[0] != 'load' or any(x[0] == 'm' for x in op[1]))
+            sig = sig if len(sig) <= 9 else sig[:9] + '..'
+            ms['sequences'][sig] = ms['sequences'].get(sig, 0) + 1
+            seen = False
+            for op in c['ops']:
+                if op[0] == 'reg' and c['native'][op[1]]['style'] != 'variadic':
+                    seen = True
+                elif op[0] == 'load' and op[2]:
+                    seen = seen and not any(x[0] == 'm' for x in op[1])
+                elif op[0] == 'load' and seen and any(x[0] == 'm' for x in op[1]):
+                    ms['chained_keys'] += 1      # a Python predicate wrapped in a chain
+                    break
+        c = dict(c, clauses=mixed_clauses(c)) if c.get('kind') == 'mixed' else c
         for s in c['native']:
             for k in ('style', 'yield', 'form'):
                 d[k][s[k]] = d[k].get(s[k], 0) + 1
@@ -653,7 +1002,7 @@ def distribution(cases, obs):
         # rows of the replaced predicates by the class the theorems for rows with variables distinguish (Sem/NativeRename.v)
         facts = fact_preds(numbered(c))
         for s in c['native']:
-            for row in facts.get((s['name'], s['arity']), []):
+            for row in (facts.get((s['name'], s['arity']), []) if c.get('kind') != 'mixed' else [x[1] for x in progs.number_anons(spec_fact_clauses(s))]):
                 tops = [a[1] for a in row if a[0] == 'var']
                 nv = row_terms(row)[1]
                 k = 'ground' if nv == 0 else ('aliased argument (checked only)' if any(tops.count(v) == 1 for v in tops) else 'variables, no aliased argument (proved)')
@@ -671,11 +1020,42 @@ def distribution(cases, obs):
     return d
 
 def describe(case):
+    if case.get('kind') == 'mixed':
+        ops = []
+        for op in case['ops']:
+            if op[0] == 'load':
+                ops.append({'load_script_from_string': ast_io.program_text(op[1]), 'overwrite': bool(op[2])})
+            elif op[0] == 'reg':
+                sp = case['native'][op[1]]
+                ops.append({'register_function': dict({k: v for k, v in sp.items() if k != 'rows'}, rows=ast_io.program_text(spec_fact_clauses(sp)))})
+            else:
+                ops.append({'assert_fact': ast_io.program_text([[op[1], op[2], ['true']]])})
+        return {'operations': ops, 'queries_asked_after_operations': case['rounds'], 'queries': [qtext(q) for q in case['queries']]}
     return {'program': ast_io.program_text(case['clauses']), 'python_predicates': case['native'],
             'dynamic_facts': [[n, [terms.show_term(t) for t in ts]] for n, ts in case['dyn']],
             'queries': [qtext(q) for q in case['queries']]}
 
 def shrink(case):
+    if case.get('kind') == 'mixed':
+        if len(case['queries']) > 1:
+            for i in range(len(case['queries'])):
+                yield dict(case, queries=[case['queries'][i]])
+        if len(case['rounds']) > 1:
+            for k in case['rounds']:
+                yield dict(case, ops=case['ops'][:k], rounds=[k])
+        for i, op in enumerate(case['ops']):
+            if len(case['ops']) > 1:
+                yield dict(case, ops=case['ops'][:i] + case['ops'][i + 1:], rounds=[len(case['ops']) - 1])
+            if op[0] == 'load':
+                for j in range(len(op[1])):
+                    yield dict(case, ops=case['ops'][:i] + [['load', op[1][:j] + op[1][j + 1:], op[2]]] + case['ops'][i + 1:])
+            if op[0] == 'reg' and len(case['native'][op[1]]['rows']) > 1:
+                sp = case['native'][op[1]]
+                for j in range(len(sp['rows'])):
+                    nat = list(case['native'])
+                    nat[op[1]] = dict(sp, rows=sp['rows'][:j] + sp['rows'][j + 1:])
+                    yield dict(case, native=nat)
+        return
     if len(case['queries']) > 1:
         for i in range(len(case['queries'])):
             yield dict(case, queries=[case['queries'][i]])
